@@ -27,7 +27,7 @@ class Model(object):
     def __init__(self, sim):
         from .clustersim import kv_new
         self.d = kv_new()
-        self.cons = sim.make_consumers()
+        self.cons = sim.make_consumers(for_model=True)
 
     def apply(self, sub):
         from .clustersim import kv_apply, canon_value
@@ -61,13 +61,20 @@ def _clen(c):
             return 0
 
 
+def _impl(c):
+    """ReplLockManager is a wrapper around the consumer that is actually replicated."""
+    if not hasattr(c, '_serialize') and hasattr(c, '_consumer'):
+        return c._consumer()
+    return c
+
+
 def cheap_digest(d, cons):
-    return (d['n'], d['h'], tuple(_clen(c) for c in cons))
+    return (d['n'], d['h'], tuple(_clen(_impl(c)) for c in cons))
 
 
 def full_digest(d, cons):
     from .clustersim import canon_value
-    return h32(canon_value(d), [canon_value(c._serialize()) for c in cons])
+    return h32(canon_value(d), [canon_value(_impl(c)._serialize()) for c in cons])
 
 
 class Ext(object):
@@ -125,6 +132,10 @@ class Monitors(object):
         self.failed_pos = {}
         self.commit_values = {}
         self.last_voter = None
+        self.fid_info = {}
+        self.anon = 0
+        self._ver_scanned = 1
+        self._ver_entries = []
 
     # -- hooks used while building a process ------------------------------------------
     def conf_hooks(self, p, kw):
@@ -135,9 +146,19 @@ class Monitors(object):
     def on_proc_start(self, p):
         obj = p.obj
         if self.model is None:
-            self.model = Model(self.sim)
+            self.model = self.new_model()
             self.mcheap[1] = self.model.cheap()
         for fid, meth in list(obj._idToMethod.items()):
+            if fid not in self.fid_info:
+                owner = getattr(meth, '__self__', None)
+                name = getattr(meth, '__name__', '')
+                base = name.rsplit('_v', 1)[0] if '_v' in name else name
+                if owner is obj:
+                    self.fid_info[fid] = ('kv', base)
+                else:
+                    for ci, c in enumerate(p.consumers):
+                        if _impl(c) is owner:
+                            self.fid_info[fid] = (ci, base)
             obj._idToMethod[fid] = self._wrap_apply(p, fid, meth)
         p.last_commit = obj.raftCommitIndex
         p.last_applied = obj.raftLastApplied
@@ -170,6 +191,12 @@ class Monitors(object):
     # -- event sinks ------------------------------------------------------------------
     def on_submit_bytes(self, data):
         s = self.cur_sub
+        if s is None:
+            # submitted by library code (lock manager thread, tryAcquire, setCodeVersion ...): decode the
+            # command so that the reference model can follow
+            s = self.anonymous_sub(data)
+            if s is None:
+                return
         if s is not None and s.get('bytes') is None:
             s['bytes'] = data
             lst = self.cmd2sub.setdefault(data, [])
@@ -179,6 +206,42 @@ class Monitors(object):
                 # callback can not be tied to one position; the uid based C02 clauses skip these
                 for x in lst:
                     x['ambiguous'] = True
+
+    def new_model(self):
+        f = getattr(self, 'model_factory', None)
+        return f() if f is not None else Model(self.sim)
+
+    def model_apply(self, model, cmd, sub):
+        if hasattr(model, 'apply_fid'):
+            try:
+                dec = _pickle.loads(cmd[1:])
+            except Exception:
+                return ('exc', 'undecodable')
+            if not isinstance(dec, tuple):
+                return model.apply_fid(dec, ())
+            return model.apply_fid(dec[0], dec[1])
+        return model.apply(sub)
+
+    def anonymous_sub(self, data):
+        if cmd_type(data) != REGULAR:
+            return None
+        try:
+            dec = _pickle.loads(data[1:])
+        except Exception:
+            return None
+        if not isinstance(dec, tuple):
+            fid, args, kw = dec, (), {}
+        elif len(dec) == 2:
+            fid, args, kw = dec[0], dec[1], {}
+        else:
+            fid, args, kw = dec
+        info = self.fid_info.get(fid)
+        if info is None:
+            return None
+        self.anon += 1
+        sub = {'uid': -self.anon, 'key': None, 'inc': None, 'target': info[0], 'method': info[1], 'args': tuple(args), 'kwargs': dict(kw),
+               'step': self.sim.step, 'cbs': [], 'bytes': None, 't': CLK.now, 'role': 'library', 'ambiguous': True}
+        return sub
 
     def on_submit(self, p, sub):
         obj = p.obj
@@ -364,15 +427,27 @@ class Monitors(object):
         for e in self.ext:
             e.on_chunk_in(p, data, done)
 
-    def version_at(self, k):
-        v = 0
-        for pos in range(2, k + 1):
-            c = self.committed.get(pos)
-            if c is not None and cmd_type(c[1]) == VERSION:
+    def version_entries(self):
+        """[(pos, requested version)] of the committed VERSION entries, in log order (incremental scan)."""
+        while self._ver_scanned < self.maxc and (self._ver_scanned + 1) in self.committed:
+            self._ver_scanned += 1
+            c = self.committed[self._ver_scanned]
+            if cmd_type(c[1]) == VERSION:
                 try:
-                    v = _pickle.loads(c[1][1:])
+                    self._ver_entries.append((self._ver_scanned, _pickle.loads(c[1][1:])))
                 except Exception:
-                    return None
+                    pass
+        return self._ver_entries
+
+    def version_at(self, k):
+        """Enabled code version defined by the log prefix k: requests for a lower version are rejected
+        (property statement), so it is the running maximum of the requested versions."""
+        v = 0
+        for pos, want in self.version_entries():
+            if pos > k:
+                break
+            if want > v:
+                v = want
         return v
 
     # -- C20 -----------------------------------------------------------------------
@@ -492,8 +567,10 @@ class Monitors(object):
             if ct == REGULAR:
                 subs = self.cmd2sub.get(cmd)
                 if not subs:
-                    self.model_broken = pos
-                    break
+                    if not hasattr(self.model, 'apply_fid'):
+                        self.model_broken = pos
+                        break
+                    subs = [{'uid': None, 'ambiguous': True, 'cbs': []}]
                 sub = subs[0]
                 if not sub.get('ambiguous'):
                     if sub['uid'] in self.pos_of_uid:
@@ -506,7 +583,7 @@ class Monitors(object):
                                             % (sub['uid'], FAIL_NAMES[err], pos), reason=FAIL_NAMES[err])
                 else:
                     self.obs['ambiguous_commands_committed'] += 1
-                self.mret[pos] = self.model.apply(sub)
+                self.mret[pos] = self.model_apply(self.model, cmd, sub)
                 if self.mret[pos][0] == 'exc':
                     self.failed_pos[pos] = sub
             self.mcheap[pos] = self.model.cheap()
@@ -515,16 +592,16 @@ class Monitors(object):
     def model_full_at(self, k):
         if k in self.mfull_cache:
             return self.mfull_cache[k]
-        m = Model(self.sim)
+        m = self.new_model()
         for pos in range(2, k + 1):
             c = self.committed.get(pos)
             if c is None:
                 return None
             if cmd_type(c[1]) == REGULAR:
                 subs = self.cmd2sub.get(c[1])
-                if not subs:
+                if not subs and not hasattr(m, 'apply_fid'):
                     return None
-                m.apply(subs[0])
+                self.model_apply(m, c[1], subs[0] if subs else None)
         self.mfull_cache[k] = v = (m.full(), m.cheap())
         return v
 
